@@ -29,12 +29,12 @@ Lemma snapshot_view_shape legacy o m :
     v_bodyoff v = blen (head_bytes m) /\
     v_troff v = blen (head_bytes m) + blen b /\
     (v_full v = true -> b = (if m_te m then chunk_body (m_body m) else m_body m)
-                        /\ t = trailer_bytes legacy m).
+                        /\ t = trailer_bytes m).
 Proof.
   unfold snapshot_gen.
   destruct (o_skipbody o && negb (match_ct (o_cts o) (header_get kCT (m_hdrs m))))%bool.
   - exists [], []. cbn. rewrite !app_nil_r. repeat split; try lia; try discriminate.
-  - exists (if m_te m then chunk_body (m_body m) else m_body m), (trailer_bytes legacy m).
+  - exists (if m_te m then chunk_body (m_body m) else m_body m), (trailer_bytes m).
     cbn. repeat split.
 Qed.
 
@@ -229,14 +229,62 @@ Proof. destruct r; reflexivity. Qed.
 Lemma excl_Host : excluded true kHost = true.
 Proof. reflexivity. Qed.
 
+(* the header section is a complete head: it ends with the blank line *)
+Lemma ends_with_iff suf s : ends_with suf s = true <-> exists p, s = p ++ suf.
+Proof.
+  unfold ends_with. rewrite andb_true_iff, bytes_eqb_eq, Nat.leb_le. split.
+  - intros [H _]. exists (firstn (List.length s - List.length suf) s).
+    rewrite <- H at 2. symmetry. apply firstn_skipn.
+  - intros [p ->]. rewrite app_length. split; [|lia].
+    replace (List.length p + List.length suf - List.length suf)%nat with (List.length p) by lia.
+    rewrite skipn_app, skipn_all, Nat.sub_diag. reflexivity.
+Qed.
+
+Lemma hlines_ends l : hlines l = [] \/ exists x, hlines l = x ++ crlf.
+Proof.
+  induction l as [|h l IH]; [now left|]. right.
+  rewrite hlines_cons. destruct IH as [E|[x E]]; rewrite E.
+  - rewrite app_nil_r. unfold hline. exists (fst h ++ B ": " ++ snd h). now rewrite <- !app_assoc.
+  - exists (hline h ++ x). now rewrite <- app_assoc.
+Qed.
+
+Lemma head_ends_with_blank_line m : ends_with (crlf ++ crlf) (head_bytes m) = true.
+Proof.
+  apply ends_with_iff. rewrite head_bytes_shape.
+  destruct (hlines_ends (special m ++ write_subset (m_isreq m) (m_hdrs m))) as [E|[x E]]; rewrite E.
+  - exists (m_start m). reflexivity.
+  - exists (m_start m ++ crlf ++ x). now rewrite <- !app_assoc.
+Qed.
+
+Lemma hdr_section_is_head legacy o m :
+  hdr_r (fst (snapshot_gen legacy o m)) = Some (head_bytes m).
+Proof.
+  destruct (snapshot_view_shape legacy o m) as (b & t & Hm & Hb & _ & _).
+  cbv zeta in *. unfold hdr_r. rewrite Hm, Hb. apply slice_first.
+Qed.
+
+Lemma sections_partition_full legacy o m :
+  let v := fst (snapshot_gen legacy o m) in
+  0 <= v_bodyoff v /\ v_bodyoff v <= v_troff v /\ v_troff v <= blen (v_message v) /\
+  exists h b t, hdr_r v = Some h /\ body_r v = Some b /\ trl_r v = Some t /\
+                h ++ b ++ t = v_message v /\ ends_with (crlf ++ crlf) h = true.
+Proof.
+  cbv zeta.
+  destruct (sections_partition legacy o m) as (H1 & H2 & H3 & h & b & t & Hh & Hb & Ht & Hcat).
+  split; [assumption|]. split; [assumption|]. split; [assumption|].
+  exists h, b, t. repeat split; try assumption.
+  rewrite hdr_section_is_head in Hh. injection Hh as <-. apply head_ends_with_blank_line.
+Qed.
+
 (* ---------------- the snapshot is a parseable message equal to the original ---------------- *)
 
 Lemma snapshot_parseable o m :
   wf_b m = true ->
+  m_trailers m = None ->
   v_full (fst (snapshot o m)) = true ->
   parse_spec (m_isreq m) (v_message (fst (snapshot o m))) = Some (canon m).
 Proof.
-  intros Hwf Hfull.
+  intros Hwf Htn0 Hfull.
   destruct (snapshot_view_shape false o m) as (b & t & Hm & _ & _ & Hbt).
   cbv zeta in *. fold snapshot in *. specialize (Hbt Hfull). destruct Hbt as [-> ->].
   rewrite Hm. clear Hm Hfull.
@@ -265,18 +313,14 @@ Proof.
   - (* chunked *)
     rewrite bytes_eqb_refl.
     apply Z.eqb_eq in Hfr.
-    assert (Henc : chunk_body (m_body m) ++ trailer_bytes false m
-                   = chunk_enc (m_body m) (match m_trailers m with Some t => t | None => [] end)).
-    { unfold trailer_bytes, chunk_enc. rewrite Ete. destruct (m_trailers m); reflexivity. }
-    rewrite Henc. rewrite chunk_roundtrip.
-    + rewrite Hfr. cbn [negb andb]. f_equal. f_equal.
-      destruct (m_trailers m) as [[|x l]|]; reflexivity.
-    + destruct (m_trailers m) as [tl|]; [|reflexivity].
-      apply andb_true_iff in Htr. tauto.
+    assert (Henc : chunk_body (m_body m) ++ trailer_bytes m = chunk_enc (m_body m) []).
+    { unfold trailer_bytes, chunk_enc. rewrite Ete, Htn0. reflexivity. }
+    rewrite Henc. rewrite chunk_roundtrip by reflexivity.
+    rewrite Hfr, Htn0. cbn [negb andb canon_trailers]. reflexivity.
   - (* not chunked *)
     assert (Htn : m_trailers m = None).
     { destruct (m_trailers m); [|reflexivity]. rewrite andb_true_iff in Htr. destruct Htr; discriminate. }
-    assert (Hr2 : m_body m ++ trailer_bytes false m = m_body m).
+    assert (Hr2 : m_body m ++ trailer_bytes m = m_body m).
     { unfold trailer_bytes. rewrite Htn, Ete. now rewrite app_nil_r. }
     rewrite Hr2, Htn. cbn [canon_trailers].
     unfold allh at 1. rewrite lookup_all by apply excl_CL. rewrite lookup_CL, Ete. cbn [negb andb].
